@@ -235,3 +235,44 @@ class Session:
         r = call_impl(self.kb.header.__str__, (), stream="tr31")
         self.c.calls.append({"fn": "Header.__str__", "args": [], "entropy": "", "stream": "tr31", "session": True})
         return self._finish(r, "hist.str", enc_s)
+
+
+def boundary_kbpks(ver):
+    """[(kbpk, description)]: protection keys on the boundaries of the CMAC subkey derivation (corpus/TR31/cmac_boundary.jsonl,
+    built by harness/tools/build_cmac_boundary.py with the `cryptography` package): E_K(0), K1, or the same for the derived
+    authentication key, start with 0x80 / 0x7F / 0x00 / 0xFF / 0x81 / 0xC0 / 0x40 (top bit and carry cases of the doubling)."""
+    import json
+    import os
+    path = os.path.join(os.path.dirname(os.path.dirname(os.path.dirname(os.path.abspath(__file__)))), "corpus", "TR31", "cmac_boundary.jsonl")
+    out = []
+    if os.path.exists(path):
+        for line in open(path):
+            e = json.loads(line)
+            if e["ver"] == ver:
+                out.append((bytes.fromhex(e["kbpk"]), f"{e['what']} starts {e['first_byte']}"))
+    return out
+
+
+def boundary_cases(rng, ver, tier):
+    """wrap (implementation against the model, byte for byte under the recorded entropy), unwrap of the result, and a block with one
+    MAC character changed, under every boundary KBPK of the version"""
+    from core import Case
+    ks = boundary_kbpks(ver)
+    if tier == "quick":
+        ks = [k for k in ks if k[1].split()[-1] in ("80", "7f", "ff", "00")]
+    for kbpk, what in ks:
+        h = make_header(rng, ver, rand_blocks(rng, rng.choice([0, 1])))
+        key = rb(rng, rng.choice([8, 16, 24]))
+        c = Case(f"{ver}:cmac-boundary-kbpk", {"what": what, "kbpk": len(kbpk)})
+        w = wrap_case(c, kbpk, h, key, rng.choice([None, 0]))
+        if not w.ok:
+            c.fail("wrap raised " + w.err)
+        else:
+            r = unwrap_case(c, kbpk, w.value)
+            if not r.ok or r.value[1] != key:
+                c.fail("block wrapped under a CMAC-boundary KBPK does not unwrap to its key")
+            t = w.value[:-1] + ("0" if w.value[-1] != "0" else "1")
+            r2 = unwrap_case(c, kbpk, t)
+            if r2.ok:
+                c.fail("block with a changed MAC character accepted")
+        yield c, kbpk, h, key, w
